@@ -52,3 +52,114 @@ RULES = {
     'Z_zip_drop_loop_N': [(lambda body: _zip_drop_loop(body, 'N'))],
     'Z_zip_drop_loop_len': [(lambda body: _zip_drop_loop(body, 'self.state.len()'))],
 }
+
+
+# ---------------------------------------------------------------------------------------------
+# Tuple zip (src/stream/zip/tuple.rs, extracted from the compiler's macro expansion).
+# Field letter X <-> position pos(X) = index of X in 'ABCDEFGHIJKL' (the order of `$($F)+` in
+# `impl_zip_for_tuple! { zip_N ZipN A B .. }` = order of `enum Indexes`, of the struct's stream fields
+# and of the item tuple).  Every rule that fixes a positional order verifies it and otherwise does
+# not match (lost anchor => undecided), never silently accepts.
+# ---------------------------------------------------------------------------------------------
+_LETTERS = 'ABCDEFGHIJKL'
+
+
+def _pos(letter):
+    return _LETTERS.index(letter)
+
+
+def _ordered(ls):
+    return ls == list(_LETTERS[:len(ls)])
+
+
+def _zt_mod_const(body):
+    """`zip_N::X` (pub(super) const X: usize = Indexes::X as usize) -> the literal pos(X); in patterns of
+    `match index` and in `self.state[zip_N::X]`.  `zip_N::Output`/`zip_N::LEN` are not single letters."""
+    n = 0
+
+    def rep(m):
+        nonlocal n
+        n += 1
+        return str(_pos(m.group(1)))
+    return _re.sub(r'\bzip_\d+::([A-L])\b(?!\s*::)', rep, body), n
+
+
+def _zt_child_poll(body):
+    """`let stream = unsafe { Pin::new_unchecked(&mut self.X) }; match stream.poll_next(&mut cx)` ->
+    proof-mode ZIP_SKIP_BUFFERED / Inv-OWN checks + `match self.streams.poll_next_child(pos(X), &mut cx, &mut self.wakers)`."""
+    pat = _re.compile(r'let\s+stream\s*=\s*unsafe\s*\{\s*Pin::new_unchecked\(&mut\s+self\.([A-L])\)\s*\};\s*match\s+stream\.poll_next\(&mut cx\)', _re.S)
+    n = 0
+
+    def rep(m):
+        nonlocal n
+        n += 1
+        p = _pos(m.group(1))
+        return ('proof { zip_hold_back(self.output.v@, %d);\n assert(self.inv_own()); // @OBL ZIPT_INV_OWN_AT_CHILD_POLL props=C02\n }\n'
+                'match self.streams.poll_next_child(%d, &mut cx, &mut self.wakers)' % (p, p))
+    return pat.sub(rep, body), n
+
+
+def _zt_out_write(body):
+    n = 0
+
+    def rep(m):
+        nonlocal n
+        n += 1
+        return 'self.output.write(%d, %s);' % (_pos(m.group(1)), m.group(2))
+    return _re.sub(r'self\.output\.([A-L])\s*=\s*MaybeUninit::new\((\w+)\);', rep, body), n
+
+
+def _zt_take_block(body):
+    """let mut output = zip_N::Output::default(); core::mem::swap(self.output, &mut output);
+    match output { zip_N::Output { A, B, .. } => return Poll::Ready(Some((unsafe { A.assume_init() }, ..))), }
+    =>  let output = self.output.take(); return Poll::Ready(Some(output));
+    The letters must be exactly A.. in positional order in the pattern and in the result tuple."""
+    m = _re.search(r'let\s+mut\s+output\s*=\s*zip_\d+::Output::default\(\);\s*core::mem::swap\(self\.output,\s*&mut output\);\s*'
+                   r'match\s+output\s*\{\s*zip_\d+::Output\s*\{([A-L,\s]+?)\}\s*=>\s*return\s+Poll::Ready\(Some\(\(((?:\s*unsafe\s*\{\s*[A-L]\.assume_init\(\)\s*\},?)+)\s*\)\)\),?\s*\}',
+                   body, _re.S)
+    if not m:
+        return body, 0
+    d = [x.strip() for x in m.group(1).split(',') if x.strip()]
+    r = _re.findall(r'([A-L])\.assume_init\(\)', m.group(2))
+    if not _ordered(d) or r != d:
+        return body, 0
+    return body[:m.start()] + 'let output = self.output.take(); return Poll::Ready(Some(output));' + body[m.end():], 1
+
+
+def _zt_assume_init_drop(body):
+    n = 0
+
+    def rep(m):
+        nonlocal n
+        n += 1
+        return 'self.output.drop(%d);' % _pos(m.group(1))
+    return _re.sub(r'unsafe\s*\{\s*self\.output\.([A-L])\.assume_init_drop\(\)\s*\};', rep, body), n
+
+
+def _zt_ctor_fields(body):
+    """`Self::Stream { done: .., .., A, B, }`: the trailing shorthand stream fields (field X := variable X, bound
+    positionally by the verified `let (A, B): (A, B) = self;`) -> `streams,`; letters must be A.. in order."""
+    m = _re.search(r'Self::Stream\s*\{(.*?)((?:\s*[A-L]\s*,)+)\s*\}', body, _re.S)
+    if not m:
+        return body, 0
+    ls = _re.findall(r'([A-L])\s*,', m.group(2))
+    if not _ordered(ls) or _re.search(r'\b[A-L]\b', m.group(1)):
+        return body, 0
+    return body[:m.start()] + 'Self {' + m.group(1) + ' streams, }' + body[m.end():], 1
+
+
+RULES.update({
+    'ZT_mod_const': [_zt_mod_const],
+    'ZT_child_poll': [_zt_child_poll],
+    'ZT_out_write': [_zt_out_write],
+    'ZT_take_block': [_zt_take_block],
+    'ZT_assume_init_drop': [_zt_assume_init_drop],
+    'ZT_ctor_fields': [_zt_ctor_fields],
+    # if !COND { { ::core::panicking::panic_fmt(format_args!("..")); } };  => assert!(COND);   (COND may itself start with `!`)
+    'ZT_panic_assert': [(r'if !(!?[\w.]+)\s*\{\s*\{\s*::core::panicking::panic_fmt\(format_args!\("[^"]*"\)\);\s*\}\s*\};?', r'assert!(\1);')],
+    # `_ => ::core::panicking::panic("internal error: entered unreachable code"),` (unreachable!()) => obligation: the arm is dead
+    'ZT_unreachable': [(r'::core::panicking::panic\("internal error: entered unreachable code"\)', 'zip_unreachable()')],
+    'ZT_all_ready': [(r'self\.state\.iter\(\)\.all\(\|state\|\s*state\.is_ready\(\)\)', 'self.state_all_ready()')],
+    'ZT_set_all_pending': [(r'self\.state\.set_all_pending\(\);', 'zip_set_all_pending_array(&mut self.state);')],
+    'ZT_ctor_output': [(r'output:\s*Default::default\(\)', 'output: OutputArray::uninit()')],
+})
